@@ -173,7 +173,8 @@ class ModelWorld(engine.World):
         ev["grad"] = es.weighted(gkinds)
         ev["mag"] = es.log10_uniform(mag_lo, mag_hi)
       elif kind == "fit":
-        ev["opt"] = es.choice(opts_new)
+        ev["family"] = es.choice(fams)
+        ev["opt"] = es.choice(opts_new if ev["family"] == "new" else opts_leg)
         ev["lr"] = es.log10_uniform(lr_lo, lr_hi)
         ev["eager"] = es.chance(0.5)
         ev["n"] = es.choice([8, 24])
@@ -544,7 +545,8 @@ class ModelWorld(engine.World):
     if out_dim != 1:
       y = np.repeat(y, out_dim, axis=1)
     with ctx.sut("compile"):
-      opt = common.make_optimizer("new", ev["opt"], float(ev["lr"]))
+      opt = common.make_optimizer(ev.get("family", "new"), ev["opt"],
+                                  float(ev["lr"]))
       self.model.compile(optimizer=opt, loss="mse", run_eagerly=bool(
           ev["eager"]))
     self.compiled = True
@@ -562,7 +564,8 @@ class ModelWorld(engine.World):
     self.never_projected.clear()
     self.dirty_since_finalize = True
     ctx.fire("keras_fit")
-    ctx.token("fit:%s:%d" % (ev["opt"], int(ev["eager"])))
+    ctx.token("fit:%s:%s:%d" % (ev.get("family", "new")[0], ev["opt"],
+                                int(ev["eager"])))
 
   def _ev_finalize(self, ev, ctx):
     n = 0
@@ -885,6 +888,10 @@ class ModelWorld(engine.World):
       self.stop_requested = True
       ctx.count("guard:magnitude")
       return []
+    ctx.abstract((ev["kind"], bool(self.restored_once), bool(self.compiled),
+                  self._stale_kfl(), bool(self.never_projected),
+                  len([im for im in self.images if im["id"] not in self.lost])
+                  > 0, bool(self.deferred and self.dirty_since_finalize)))
     if self.prop == "C11" and ev["kind"] == "construct":
       out.extend(self._check_objects(ctx))
     if pending is not None and self.prop == "C11":
